@@ -538,13 +538,20 @@ impl Harness for C06 {
             }
         }
         jobs.insert(0, Job::new("builders", json!({"kind": "builders"})));
+        {
+            let j = &mut jobs;
+            for i in 0..mc_sc::entry::n_parts("C06") {
+                j.insert(1 + i, Job::new(format!("entry-{}", i), json!({"kind": "entry", "part": i})));
+            }
+        }
         Plan {
             jobs,
             budget_s: if t { 2400 } else { 40 },
             case_deadline_ms: 20_000,
-            floors: vec![("builder_chains", 5), ("seeded_fits", 10_000), ("bootstrap_schedules", 10_000), ("feature_shuffles_explored", 1000), ("oob_rows_checked", 10_000), ("oob_rows_partial", 1000), ("rows_with_disagreeing_trees", 1000), ("class_size_fits", 10_000), ("class_size_fits_singleton_class", 500)],
+            floors: vec![("builder_chains", 5), ("entry_cases", 1000), ("seeded_fits", 10_000), ("bootstrap_schedules", 10_000), ("feature_shuffles_explored", 1000), ("oob_rows_checked", 10_000), ("oob_rows_partial", 1000), ("rows_with_disagreeing_trees", 1000), ("class_size_fits", 10_000), ("class_size_fits_singleton_class", 500)],
             bounds: json!({
                 "builders": mc_sc::builders::BOUNDS,
+                "entry_paths": mc_sc::entry::BOUNDS,
                 "seeded": format!("7 lattice data sets x {{classifier, regressor}} x seeds {}..{} x n_trees {{1,2,3,5,10,30}} x m in {{None,1..p}} x 6 (max_depth, min_samples_leaf, min_samples_split) settings x keep_samples x 3 criteria", seed0, seed0 as usize + nseeds),
                 "class_sizes": "classifier, p=1 distinct values: every n in 4..=120 x every two-class split (c, n-c), c=1..n-1, and three layouts with singleton classes, rows contiguous or interleaved, 2 trees, keep_samples (1 seed quick, 4 thorough): stratification and all other classifier clauses",
                 "bootstrap": "n=4 rows (2+2 classes / 2 target vectors), 3 layouts per p in {1,2}, n_trees in {1,2}, m in {p, 1}: EVERY bootstrap outcome (16 per classifier tree, 256 per regressor tree) and every feature-subsampling shuffle",
@@ -553,6 +560,9 @@ impl Harness for C06 {
     }
 
     fn run(&self, job: &Job) {
+        if job.kind() == "entry" {
+            return mc_sc::entry::run_part("C06", job.u("part"));
+        }
         match job.kind() {
             "seeded" => seeded_case(job),
             "bootstrap" => bootstrap_case(job),
